@@ -105,7 +105,7 @@ def canon(v, rt, shape=False):
     if isinstance(v, type):
         return [4, type_id(v, rt)]
     if isinstance(v, (types.FunctionType, types.BuiltinFunctionType, types.MethodType, types.LambdaType)) or (callable(v) and type(v).__name__ != "K"):
-        return [5, 0] if shape else [7]
+        return [5, 0]
     return [5, 99]
 
 
@@ -441,7 +441,7 @@ def walk(e, fn, ctx):
 
 def classify(body, params):
     """which known-finding classes (and other reasons to be outside the theorem's domain) a body falls in"""
-    is_method, cx, posnames, rs, cs, aliases = params[0], params[1], params[2], params[3], params[4], params[5]
+    is_method, cx, posnames, rs, cs, aliases = params[0], params[1], params[2], params[3], params[4], [a[0] for a in params[5]]
     rs = rs[1] if rs[0] else None
     cs = cs[1] if cs[0] else None
     pos = {p[1] for p in posnames if p[0]}
